@@ -561,13 +561,17 @@ write; high byte in every window x bit 0) at every interesting frame T-state (wi
 columns of lines 1 and 191, before/after the picture, frame end wrap, 200 random) on the 48K and on the 128K with every bank \
 0-7 paged at 0xC000; whole instructions (all 1792 encodings plus hand-picked operand variants) executed by the real \
 Z80 in the real Emulator with random placement of code, stack, HL/BC/DE/IX/IY, I in contended/uncontended memory at random \
-interesting T-states, the bus-cycle trace taken from the real Z80 on a recording bus; and timed memory/port cycles in every window after seeded histories of paging writes (locking writes, writes after the lock) on the 128K. distinct/non-trivial = distinct \
+interesting T-states, the bus-cycle trace taken from the real Z80 on a recording bus; and timed memory/port cycles in every window after seeded histories of paging writes (locking writes, writes after the lock) on the 128K; and whole-machine lock-step runs of random programs (4-20 instructions, random CPU state, placement and paging) of the real Emulator against the Lean Z80 reference running on the Lean Spectrum bus, everything compared after every instruction. distinct/non-trivial = distinct \
 (machine, cycle kind or opcode, delay, T mod 8) among delayed cases".into();
     let mut model = Model::spawn(&o.model, "C04");
     let mut batch = vec![];
 
     if let Some(text) = &o.replay {
         rep.sample(J::s(text.clone()));
+        if text.starts_with("sys ") {
+            crate::sys::replay(o, &mut rep, "C04", text);
+            return rep;
+        }
         if let Some(h) = text.strip_prefix("history ") {
             history_layer(o, &mut model, &mut rep, Some(h));
             return rep;
@@ -644,5 +648,9 @@ interesting T-states, the bus-cycle trace taken from the real Z80 on a recording
         flush(&mut model, &mut rep, &mut batch);
     }
     history_layer(o, &mut model, &mut rep, None);
+    // (5) whole-machine lock-step: real Emulator vs the Lean Z80 reference on the Lean Spectrum bus
+    let ts48 = interesting_ts(false, false, &mut rng);
+    let ts128 = interesting_ts(true, false, &mut rng);
+    crate::sys::lockstep(o, &mut rep, "C04", o.n(2500, 200_000), &ts48, &ts128);
     rep
 }
